@@ -329,6 +329,16 @@ def run_property(pid, tier, seed):
         print(l)
     for (path, nofail) in violations:
         print("VIOLATION property=%s replay=%s%s" % (pid, path, " no-failing-input-found" if nofail else ""))
+        try:        # a short reason on stdout, so that a log of the run says what broke
+            r = json.load(open(path))
+            if nofail:
+                why = [r.get("proof", "")[:300]] if r.get("proof", "").startswith("proof obligations") else []
+                why += ["%s: %s" % (c.get("part"), str(c.get("detail"))[:400].replace("\n", " | ")) for c in r.get("correspondence", [])]
+                print("REASON: " + " ;; ".join(why)[:1500])
+            else:
+                print("REASON: part=%s input=%s" % (r.get("part"), json.dumps(r.get("input"))[:600]))
+        except Exception:
+            pass
     if violations:
         return 1
     print("OK property=%s tier=%s cases=%d obligations=%d/%d wall=%.1fs" % (
